@@ -74,6 +74,7 @@ Spec == Init /\ [][Next]_vars
 StepOK(pre, ev, post) ==
     /\ C14_Auth(pre, ev, post)
     /\ C16_Create(pre, ev, post)
+    /\ C16_Requested(pre, ev, post)
     /\ C17_Update(pre, ev, post)
     /\ C07_FailedUnchanged(pre, ev, post)
 StepProp == [][StepOK(w, last', w')]_vars
